@@ -144,7 +144,7 @@ fn run_model_accumulation(ctx: &mut Ctx, r: &mut Rng) {
         }
     }
     // the handle `forward` hands back names the prediction: after the Model's backward(s) its gradient - when it holds
-    // one; when the caller marked it `.tracked()` it must - is d(cost)/d(prediction) times the number of passes
+    // one - is d(cost)/d(prediction) times the number of passes
     let keep_pred: Vec<u8> = (0..total).map(|i| if i >= n_before && i < n_before + n_model { r.below(3) as u8 } else { 0 }).collect();
     let mut pred_want: Vec<Option<(Vec<f64>, Vec<f64>)>> = vec![None; total];
     for bi in 0..total {
@@ -248,10 +248,8 @@ fn run_model_accumulation(ctx: &mut Ctx, r: &mut Rng) {
         };
         match got_p {
             None => {
-                if keep_pred[bi] == 2 {
-                    ctx.violation("C10|model-accumulation|prediction-gradient-missing", format!("the prediction returned by forward was marked .tracked() by the caller; after the Model's backward it holds no gradient (pass {})\n{}", bi, desc));
-                    return;
-                }
+                // whether an intermediate stores its adjoint is the library's choice (the handle inside the graph is the
+                // Model's, not the caller's): absence is counted, not judged
                 ctx.count("predictions_without_a_gradient", 1);
             }
             Some((d, v)) => {
